@@ -177,8 +177,8 @@ def explore(tier, prop):
         if tier == "thorough":
             # one placeholder with every optional part of a format spec: all lengths of the placeholder language
             passes += [(n, "placeholder") for n in range(2, 19)]
-            # ... and every literal one substituted character away from one of those, up to 7 bytes
-            passes += [(n, "placeholder1") for n in range(2, int(os.environ.get("VERIF_L_EDIT_N", "7")) + 1)]
+            # ... and every literal one substituted character away from one of those, up to 8 bytes
+            passes += [(n, "placeholder1") for n in range(2, int(os.environ.get("VERIF_L_EDIT_N", "8")) + 1)]
     passes = [(n, w, None) for n, w in passes] + [(len(t.encode()), "digits", t) for t in digit_templates(tier, prop)]
     res["passes"] = [(n, w) for n, w, _ in passes]
     res["digit_templates"] = digit_templates(tier, prop)
